@@ -89,6 +89,20 @@ Theorem C01_between : forall bl s l x a b, beval clean bl s l (BBetween x a b) =
   Z.min (fst (neval bl s l a)) (fst (neval bl s l b)) < fst (neval bl s l x) < Z.max (fst (neval bl s l a)) (fst (neval bl s l b)).
 Proof. exact between_meaning. Qed.
 Print Assumptions C01_between.
+Theorem C01_nonnumeric_cells : forall bl s l o a c,
+  is_vnone (nvalue bl s l a) = false -> is_vnone (nvalue bl s l c) = false ->
+  floatable (nvalue bl s l a) && floatable (nvalue bl s l c) = false ->
+  beval clean bl s l (BCmp o a c) = cmp_str clean o (text_of bl s l a) (text_of bl s l c).
+Proof. exact nonnumeric_cells_compare_as_text. Qed.
+Print Assumptions C01_nonnumeric_cells.
+Theorem C01_eqeq : forall q bl s l a c,
+  beval q bl s l (BEqEq a c) = ustr_eqb (strip (str_val (nvalue bl s l a))) (strip (str_val (nvalue bl s l c))) || val_eqb (nvalue bl s l a) (nvalue bl s l c).
+Proof. exact eqeq_meaning. Qed.
+Print Assumptions C01_eqeq.
+Theorem C01_equals_numbers : forall q bl s l a c, floatable (nvalue bl s l a) = true -> floatable (nvalue bl s l c) = true ->
+  beval q bl s l (BEq a c) = (fst (neval bl s l a) =? fst (neval bl s l c)).
+Proof. exact equals_numbers. Qed.
+Print Assumptions C01_equals_numbers.
 Theorem C01_missing_cell : forall bl s l o i e, cell l i = None -> is_vnone (nvalue bl s l e) = false ->
   beval clean bl s l (BCmp o (NHdr i) e) = false /\ beval clean bl s l (BCmp o e (NHdr i)) = false.
 Proof. exact missing_cell_compares_false. Qed.
@@ -98,7 +112,7 @@ Theorem C01_all_cells : forall q bl s l nh, beval q bl s l (BAllCells nh) = true
 Proof. exact all_cells_meaning. Qed.
 Print Assumptions C01_all_cells.
 Theorem C01_numeric_cells : forall bl s l o i j,
-  cell l i <> None -> cell l j <> None ->
+  floatable (nvalue bl s l (NHdr i)) = true -> floatable (nvalue bl s l (NHdr j)) = true ->
   beval clean bl s l (BCmp o (NHdr i) (NHdr j)) = cmp_num clean o (fst (neval bl s l (NHdr i))) (fst (neval bl s l (NHdr j))).
 Proof. exact numeric_cells_compare_as_numbers. Qed.
 Print Assumptions C01_numeric_cells.
